@@ -48,6 +48,8 @@ struct Entry {
     /// expected size in the quantity's base unit of the *bundled* file, and expected system
     size: f64,
     system: Option<System>,
+    /// offset to the absolute zero, in the unit itself (temperatures)
+    offset: f64,
 }
 
 fn layer_toml(c: &LayerCase) -> String {
@@ -68,6 +70,7 @@ fn layer_toml(c: &LayerCase) -> String {
         let named: Vec<String> = NAMED_ONLY.iter().filter(|(nq, _, _)| *nq == q).map(|(_, n, r)| format!("{{ names = [\"{n}\"], symbols = [], ratio = {r:?} }}")).collect();
         s.push_str(&format!("[[quantity]]\nquantity = \"{q}\"\n[quantity.units]\nunspecified = [ {{ names = [\"{name}\"], symbols = [\"{sym}\"], ratio = {size:?} }}, {} ]\n", named.join(", ")));
     }
+    s.push_str("[[quantity]]\nquantity = \"temperature\"\n[quantity.units]\nmetric = [ { names = [\"degree\"], symbols = [\"deg\"], ratio = 1, difference = 273.15, expand_si = true } ]\n");
     s
 }
 
@@ -105,24 +108,31 @@ fn entries(c: &LayerCase) -> Vec<Entry> {
     let mut out = vec![];
     for (i, (sym, name)) in BASES.iter().enumerate() {
         let base = c.resize_again[i].or(c.resize[i]).map_or(1.0, |r| SIZES[r as usize % SIZES.len()]);
-        out.push(Entry { key: sym.to_string(), quantity: qs[i], size: base, system: Some(System::Metric) });
-        out.push(Entry { key: format!("{name}s"), quantity: qs[i], size: base, system: Some(System::Metric) });
+        out.push(Entry { key: sym.to_string(), quantity: qs[i], size: base, system: Some(System::Metric), offset: 0.0 });
+        out.push(Entry { key: format!("{name}s"), quantity: qs[i], size: base, system: Some(System::Metric), offset: 0.0 });
         for (ps, pn, f) in PREFIX {
-            out.push(Entry { key: format!("{ps}{sym}"), quantity: qs[i], size: base * f, system: Some(System::Metric) });
-            out.push(Entry { key: format!("{pn}{name}"), quantity: qs[i], size: base * f, system: Some(System::Metric) });
+            out.push(Entry { key: format!("{ps}{sym}"), quantity: qs[i], size: base * f, system: Some(System::Metric), offset: 0.0 });
+            out.push(Entry { key: format!("{pn}{name}"), quantity: qs[i], size: base * f, system: Some(System::Metric), offset: 0.0 });
         }
     }
     // imperial units keep the shipped definitions (checked against the real-world ones elsewhere)
-    for k in ["oz", "lb", "cup", "tsp", "tbsp", "gal", "in", "ft"] {
+    // a temperature unit with an offset that is expanded with SI prefixes: 1000 mdeg = 1 deg, whatever the offset
+    out.push(Entry { key: "deg".into(), quantity: Temperature, size: 1.0, system: Some(System::Metric), offset: 273.15 });
+    out.push(Entry { key: "degree".into(), quantity: Temperature, size: 1.0, system: Some(System::Metric), offset: 273.15 });
+    for (ps, pn, f) in PREFIX {
+        out.push(Entry { key: format!("{ps}deg"), quantity: Temperature, size: f, system: Some(System::Metric), offset: 273.15 / f });
+        out.push(Entry { key: format!("{pn}degree"), quantity: Temperature, size: f, system: Some(System::Metric), offset: 273.15 / f });
+    }
+    for k in ["oz", "lb", "cup", "tsp", "tbsp", "gal", "in", "ft", "C", "F"] {
         let u = BUNDLED.find_unit(k).expect("bundled imperial unit");
-        out.push(Entry { key: k.to_string(), quantity: u.physical_quantity, size: u.ratio, system: u.system });
+        out.push(Entry { key: k.to_string(), quantity: u.physical_quantity, size: u.ratio, system: u.system, offset: u.difference });
     }
     for (q, name, size) in NAMED_ONLY {
-        out.push(Entry { key: name.to_string(), quantity: if q == "volume" { Volume } else { Mass }, size, system: None });
+        out.push(Entry { key: name.to_string(), quantity: if q == "volume" { Volume } else { Mass }, size, system: None, offset: 0.0 });
     }
     for (i, (_, name, sym, size)) in UNSPECIFIED.iter().enumerate() {
-        out.push(Entry { key: sym.to_string(), quantity: qs[i], size: *size, system: None });
-        out.push(Entry { key: name.to_string(), quantity: qs[i], size: *size, system: None });
+        out.push(Entry { key: sym.to_string(), quantity: qs[i], size: *size, system: None, offset: 0.0 });
+        out.push(Entry { key: name.to_string(), quantity: qs[i], size: *size, system: None, offset: 0.0 });
     }
     out
 }
@@ -153,26 +163,27 @@ pub fn check(c: &LayerCase, st: &mut Stats) -> Verdict {
             vbail!("c09.layer-unit-missing", "`{}` does not resolve in the layered converter; {}", en.key, ctx());
         };
         vensure!(
-            approx_eq(u.ratio, en.size, 1e-12, 0.0) && u.system == en.system && u.physical_quantity == en.quantity,
+            approx_eq(u.ratio, en.size, 1e-9, 0.0) && approx_eq(u.difference, en.offset, 1e-9, 0.0) && u.system == en.system && u.physical_quantity == en.quantity,
             "c09.layer-definition",
-            "`{}` is defined as {} x base ({:?}, {}) but the layers imply {} x base ({:?}); {}",
-            en.key, u.ratio, u.system, u.physical_quantity, en.size, en.system, ctx()
+            "`{}` is defined as {} x base, offset {} ({:?}, {}) but the layers imply {} x base, offset {} ({:?}); {}",
+            en.key, u.ratio, u.difference, u.system, u.physical_quantity, en.size, en.offset, en.system, ctx()
         );
     }
     let expected_default = if c.default_imperial == Some(true) { System::Imperial } else { System::Metric };
     vensure!(conv.default_system() == expected_default, "c09.layer-default-system", "default system {:?}, the layers say {expected_default:?}; {}", conv.default_system(), ctx());
-    let op = c.op % 5;
+    // temperatures: direct conversions only (an offset has no additive amount to preserve)
+    let op = if a.quantity == PhysicalQuantity::Temperature { 0 } else { c.op % 5 };
     st.class(["convert(unit)", "Converter::convert(SameSystem)", "fit()", "convert(Metric)", "convert(Imperial)"][op as usize]);
     if op == 0 {
         let r = match guard(|| conv.convert(ConvertValue::Number(s), ConvertUnit::Key(&a.key), ConvertTo::Unit(ConvertUnit::Key(&b.key)))) {
             Ok(r) => r,
             Err(p) => vbail!("c09.panic.convert", "convert({s}, {} -> {}) panicked: {p}; {}", a.key, b.key, ctx()),
         };
-        let expected = s * a.size / b.size;
+        let expected = (s + a.offset) * a.size / b.size - b.offset;
         match r {
             Ok((ConvertValue::Number(got), u)) => {
                 vensure!(
-                    approx_eq(got, expected, 1e-9, 0.0) && conv.find_unit(&b.key).is_some_and(|x| *x == *u),
+                    approx_eq(got, expected, 1e-9, if a.quantity == PhysicalQuantity::Temperature { 1e-6 * (1.0 + b.offset.abs()) * 1e-3 } else { 0.0 }) && conv.find_unit(&b.key).is_some_and(|x| *x == *u),
                     "c09.layer-conversion",
                     "{s} {} -> {} gives {got:e} {u}, the definitions imply {expected:e}; {}",
                     a.key, b.key, ctx()
@@ -277,7 +288,7 @@ pub fn run_part(run: &mut Run, tier: Tier) {
     run_prop(
         run,
         "layered",
-        "converters built from units.toml plus a generated layer (default system named or not, gram / liter / meter resized through [extend.units] by symbol or name, possibly again by a further layer, three units without a system and four units without a symbol): every SI-prefixed key is its base times the prefix factor, conversions between any two units of a quantity give the amount the layers define, Converter::convert(SameSystem) / fit / convert(system) pick a unit from the list of the unit's system or, for a unit without one, of the converter's default system, and keep the amount (relative 1e-9); every case is non-trivial",
+        "converters built from units.toml plus a generated layer (default system named or not, gram / liter / meter resized through [extend.units] by symbol or name, possibly again by a further layer, three units without a system, four units without a symbol and a temperature unit with an offset that is expanded with SI prefixes): every SI-prefixed key is its base times the prefix factor, conversions between any two units of a quantity give the amount the layers define, Converter::convert(SameSystem) / fit / convert(system) pick a unit from the list of the unit's system or, for a unit without one, of the converter's default system, and keep the amount (relative 1e-9); every case is non-trivial",
         strategy,
         tier.pick(6_000, 400_000),
         |c: &LayerCase, st| {
